@@ -22,7 +22,7 @@
 (***************************************************************************)
 EXTENDS Bytes, Integers, Sequences, FiniteSets, TLC
 
-InitSt == [buckets |-> <<>>, maxGen |-> <<>>, uploads |-> <<>>, uorder |-> <<>>]
+InitSt == [buckets |-> <<>>, maxGen |-> <<>>, uploads |-> <<>>, uorder |-> <<>>, gz |-> <<>>]
 
 HasBucket(st, b) == b \in DOMAIN st.buckets
 Objs(st, b)      == IF HasBucket(st, b) THEN st.buckets[b] ELSE <<>>
@@ -137,9 +137,21 @@ ResumablePut(st0, e) ==
 
 (******************************** reads *************************************)
 ObjView(o) == [gen |-> o.gen, metagen |-> o.metagen, md5 |-> o.md5, size |-> Len(o.content), attrs |-> o.attrs, meta |-> o.meta]
-GetMedia(st, e) == IF HasObj(st, e.b, e.n)
-                   THEN {Out(st, [codes |-> {200}, ok |-> TRUE, body |-> Obj(st, e.b, e.n).content, view |-> ObjView(Obj(st, e.b, e.n))])}
-                   ELSE Fail(st, {404})
+\* Decompressive transcoding: an object labelled contentEncoding "gzip" is served as stored (with Content-Encoding: gzip)
+\* to a client that accepts gzip and decompressed to one that does not. gunzip itself is a codec outside this
+\* specification: st.gz is the table of (stored bytes -> plain bytes) pairs the client declared when it uploaded gzip
+\* data (e.isgz / e.plain); for labelled content that is not in the table (not gzip at all, or a concatenation made by
+\* compose) the decompressed reply is not determined here (amb): a 200 with the right headers or a 500.
+GzipTok == <<103, 122, 105, 112>>
+Learn(st, e) == IF e.ev = "Upload" /\ "isgz" \in DOMAIN e /\ e.isgz THEN [st EXCEPT !.gz = (e.content :> e.plain) @@ st.gz] ELSE st
+GetMedia(st, e) ==
+  IF ~HasObj(st, e.b, e.n) THEN Fail(st, {404})
+  ELSE LET o == Obj(st, e.b, e.n)
+           base == [codes |-> {200}, ok |-> TRUE, view |-> ObjView(o)]
+       IN IF o.attrs.ce # GzipTok THEN {Out(st, base @@ [body |-> o.content, enc |-> <<>>])}
+          ELSE IF "acceptGz" \in DOMAIN e /\ e.acceptGz THEN {Out(st, base @@ [body |-> o.content, enc |-> GzipTok])}
+          ELSE IF o.content \in DOMAIN st.gz THEN {Out(st, base @@ [body |-> st.gz[o.content], enc |-> <<>>])}
+          ELSE {Out(st, base @@ [body |-> <<>>, enc |-> <<>>, amb |-> TRUE])} \cup Fail(st, {500})
 GetMeta(st, e)  == IF HasObj(st, e.b, e.n)
                    THEN {Out(st, [codes |-> {200}, ok |-> TRUE, view |-> ObjView(Obj(st, e.b, e.n))])}
                    ELSE Fail(st, {404})
@@ -202,7 +214,8 @@ LegacyFile(st, e) ==
   ELSE {Out(PutObj(st, e.b, e.n, [content |-> e.content, md5 |-> <<>>, attrs |-> EmptyAttrs, meta |-> <<>>, gen |-> e.gen, metagen |-> e.metagen]),
             [codes |-> {0}, ok |-> TRUE])}
 
-Step1(st, e) ==
+Step1(st0, e) ==
+  LET st == Learn(st0, e) IN
   CASE e.ev = "CreateBucket" -> CreateBucket(st, e)
     [] e.ev = "GetBucket"    -> GetBucket(st, e)
     [] e.ev = "DeleteBucket" -> DeleteBucket(st, e)
